@@ -98,10 +98,10 @@ type baseBlob struct {
 	TOCJSON  []byte
 	D        digest.Digest
 	Files    []refFile
-	Members  []enumx.Stream           // members / frames of Raw, in order
+	Members  []enumx.Stream          // members / frames of Raw, in order
 	Regions  map[int64][]chunkRegion // member start offset -> chunk payload regions
-	Payload  int                      // number of leading members that hold tar payload (not TOC / footer)
-	TOCStart int64                    // where the TOC member (gzip) / TOC skippable frame (zstd) starts; len(Raw)-footer for ext
+	Payload  int                     // number of leading members that hold tar payload (not TOC / footer)
+	TOCStart int64                   // where the TOC member (gzip) / TOC skippable frame (zstd) starts; len(Raw)-footer for ext
 	tocAlts  []tocAlt
 	repls    []replAlt
 }
@@ -374,11 +374,20 @@ func extractTOC(kind string, raw, ext []byte) (js []byte, all [][]byte, err erro
 	if n := len(raw); n >= 40 && string(raw[n-8:]) == "GnUlInUx" {
 		off := int64(binary.LittleEndian.Uint64(raw[n-40:]))
 		cl := int64(binary.LittleEndian.Uint64(raw[n-32:]))
-		if off >= 0 && cl >= 0 && off <= int64(n) && off+cl <= int64(n) && off+cl >= off {
+		if off >= 0 && cl > 0 && off <= int64(n) && off+cl <= int64(n) && off+cl >= off {
 			c, e := zstdDecodeLenient(raw[off : off+cl])
 			add(c, e, "zstd footer")
+		} else if off >= 0 && off <= int64(n-40) {
+			// no usable length: the manifest is whatever zstd stream starts at the offset (the JSON value it begins with)
+			c, e := zstdDecodeLenient(raw[off : n-40])
+			if e == nil {
+				if v := firstJSONValue(c); v != nil {
+					c = v
+				}
+			}
+			add(c, e, "zstd footer (length unusable)")
 		} else {
-			errs = append(errs, "zstd footer: manifest range outside blob")
+			errs = append(errs, "zstd footer: manifest offset outside blob")
 		}
 	}
 	if kind == "ext" || ext != nil {
